@@ -23,6 +23,8 @@ func registerIntrinsics(e *Engine) {
 	registerFS(e)
 	registerRegexp(e)
 	registerCron(e)
+	registerScanner(e)
+	registerJSON(e)
 	registerMisc2(e)
 	allowExecNames["(*errors.errorString).Error"] = true
 	allowExecNames["(*fmt.wrapError).Error"] = true
